@@ -329,8 +329,10 @@ class Run:
         ev = {"property_id": self.prop, "tier": self.tier, "seed": self.seed, "level": level, "coverage": cov,
               "assumptions": self.assumptions, "wall_s": round(wall, 1), "violations": len(self.violations),
               "known_findings": self.known}
-        os.makedirs(os.path.join(VERIF, "evidence"), exist_ok=True)
-        with open(os.path.join(VERIF, "evidence", self.prop + ".json"), "w") as f:
+        # evidence/ describes runs against /repo itself; the evaluation of a scratch worktree ($VERIF_REPO) is kept apart (replays/ is not committed)
+        evdir = os.path.join(VERIF, "evidence") if REPO == "/repo" else os.path.join(VERIF, "replays", "evidence-scratch")
+        os.makedirs(evdir, exist_ok=True)
+        with open(os.path.join(evdir, self.prop + ".json"), "w") as f:
             json.dump(ev, f, indent=1)
             f.write("\n")
         for k in self.known:
